@@ -132,6 +132,24 @@ static void op_life(const V &a, V &r) {
         delete P; delete_TGswParams((TGswParams *) gp); delete_TLweParams((TLweParams *) tp); delete_LweParams((LweParams *) lp); }
     r.push_back(wrong);
 }
+// fftkeylife n k l Bgbit t basebit : the lower-level key lifecycle - LweBootstrappingKey created and filled, converted to a stand-alone
+//   LweBootstrappingKeyFFT, the source key deleted first, bootstrappings and a cloud key set without coefficient-domain key through the
+//   FFT key, then the FFT key deleted.  prints the number of wrong signs
+static void op_fftkeylife(const V &a, V &r) {
+    const int n = (int) a[0], k = (int) a[1], l = (int) a[2], B = (int) a[3], t = (int) a[4], bb = (int) a[5], N = 1024;
+    LweParams *lp = new_LweParams(n, pow(2., -30), 0.012467); TLweParams *tp = new_TLweParams(N, k, pow(2., -40), 0.012467); TGswParams *gp = new_TGswParams(l, B, tp);
+    LweKey *lk = new_LweKey(lp); TGswKey *gk = new_TGswKey(gp); lweKeyGen(lk); tGswKeyGen(gk);
+    LweBootstrappingKey *bk = new_LweBootstrappingKey(t, bb, lp, gp); tfhe_createLweBootstrappingKey(bk, lk, gk);
+    LweBootstrappingKeyFFT *bf = new_LweBootstrappingKeyFFT(bk);
+    delete_LweBootstrappingKey(bk);
+    LweSample *x = new_LweSample(lp), *res = new_LweSample(lp); long wrong = 0;
+    for (int q = 0; q < 4; q++) { lweSymEncrypt(x, (q & 1) ? (1 << 29) : -(1 << 29), pow(2., -30), lk); tfhe_bootstrap_FFT(res, bf, 1 << 29, x);
+        int32_t ph = lwePhase(res, lk); if ((ph > 0) != ((q & 1) != 0)) wrong++; }
+    delete_LweSample(res); delete_LweSample(x);
+    delete_LweBootstrappingKeyFFT(bf);
+    delete_TGswKey(gk); delete_LweKey(lk); delete_TGswParams(gp); delete_TLweParams(tp); delete_LweParams(lp);
+    r.push_back(wrong);
+}
 static void op_small(const V &a, V &r) {
     int n = a[0]; LweParams *lp = new_LweParams(n, 0., 0.25), *lo = new_LweParams(3, 0., 0.25);
     LweSample *x = new_LweSample(lp), *y = new_LweSample(lp), *z = new_LweSample(lo);
@@ -438,6 +456,7 @@ int main() {
         V r;
         if (op == "life") op_life(a, r);
         else if (op == "small") op_small(a, r);
+        else if (op == "fftkeylife") op_fftkeylife(a, r);
         else if (op == "threads") op_threads(a, r);
         else if (op == "karamem") op_karamem(a, r);
         else if (op == "threadfirst") op_threadfirst(a, r);
